@@ -595,6 +595,53 @@ def audit_heap_mutation_sites():
     return obs
 
 
+GLOBAL_STATE_ALLOWED = {
+    # name -> why it cannot carry a value from one evaluation to another
+    "FUNCTION_CALLS": "profiling records (names and timestamps), never read by the evaluator",
+    "BUILTIN_FUNCTION_NAMES": "immutable after initialisation (list of built-in names)",
+    "CONSTANTS": "immutable after initialisation (pi, e, max_value, min_value)",
+    "CALL_COUNT": "parse counter for profiling, never read by the evaluator",
+    "TOTAL_PARSE_TIME": "parse timer for profiling, never read by the evaluator",
+    "PRECEDENCE_TABLE": "immutable table",
+    "PRATT": "immutable after initialisation (the Pratt parser)",
+}
+
+
+def audit_global_state():
+    """Frame audit (C02): history dependence needs state that outlives an evaluation. Every `static` / `thread_local!` /
+    lazily initialised cell declared in blots-core (tests excluded) must be one of the allow-listed ones."""
+    import os
+    import re
+    obs = []
+    root = os.path.join(core.REPO, "blots-core", "src")
+    found = set()
+    for fn in sorted(os.listdir(root)):
+        if not fn.endswith(".rs") or fn in ("tests.rs", "do_block_tests.rs"):
+            continue
+        src = open(os.path.join(root, fn)).read()
+        cut = src.find("#[cfg(test)]")
+        code = src if cut < 0 else src[:cut]
+        for m in re.finditer(r"\bstatic\s+(?:mut\s+)?([A-Za-z_][A-Za-z0-9_]*)\s*:", code):
+            if core.find_code(code, m.group(0), m.start(), m.end()) != m.start():
+                continue
+            name = m.group(1)
+            found.add(name)
+            obs.append({"case": f"global-state:{fn}:{name}", "ok": name in GLOBAL_STATE_ALLOWED,
+                        "detail": GLOBAL_STATE_ALLOWED.get(name, "not on the allow-list: state that outlives an evaluation")})
+        for m in re.finditer(r"\b(thread_local!|lazy_static!)", code):
+            if core.find_code(code, m.group(0), m.start(), m.end()) != m.start():
+                continue
+            obs.append({"case": f"global-state:{fn}:{m.group(1)}@line{core.line_of(code, m.start())}", "ok": False,
+                        "detail": "thread-local / lazy static state is not on the allow-list"})
+    obs.append({"case": "global-state-scan-saw-the-known-statics", "ok": {"FUNCTION_CALLS", "CONSTANTS"} <= found,
+                "detail": f"found {sorted(found)}"})
+    return obs
+
+
+U_GLOBAL_STATE = AuditUnit(
+    "U-GLOBAL-STATE", "the only state in blots-core that outlives an evaluation is the allow-listed profiling counters and "
+    "immutable tables; any other static / thread_local is a channel for history dependence", audit_global_state)
+
 U_FRAME_AUDIT = AuditUnit(
     "U-FRAME-AUDIT", "every Heap::get_mut / reify_mut call site is one of the two name-setting sites (Assignment arm, "
     "do-block assignment) and assigns only LambdaDef.name; with U-HEAP (all other Heap methods leave existing cells "
@@ -874,7 +921,7 @@ prop("C03", [U_ENV, U_ENV_AUDIT], "other",
       "induction over statement sequences", "REPL/CLI drivers", "that not/do/return/output cannot be identifiers (grammar)"],
      [VECMAP_ASSUMPTION])
 
-prop("C02", [U_HEAP, U_FRAME_AUDIT], "other",
+prop("C02", [U_HEAP, U_FRAME_AUDIT, U_GLOBAL_STATE], "other",
      "Frame conditions only: the heap is append-only (Verus, all heaps, unbounded) and the only two mutation sites set a "
      "lambda's name (audit). The contract for random(seed) (U-RANDOM: same seed => same bits) was written but the two copies "
      "of fastrand's 64x64->128 multiplication are a multiplier-equivalence query that did not finish in 25 min (CaDiCaL) "
